@@ -123,7 +123,9 @@ impl ClientConnection {
                     if line.is_empty() {
                         break;
                     };
-                    headers.push(match FromStr::from_str(line.as_str().trim()) {
+                    // only the end is trimmed: whitespace in front of the field name (obsolete
+                    // line folding) must reach the parser, which rejects it
+                    headers.push(match FromStr::from_str(line.as_str().trim_end()) {
                         // TODO: remove this conversion
                         Ok(h) => h,
                         _ => return Err(ReadError::WrongHeader(version)),
